@@ -239,6 +239,24 @@ pub fn eval_history(h: &History, focus: Focus, profile: &str, full: bool) -> Cas
         }
         let mut items: Vec<(Tm, AppliedId, bool)> = added.iter().map(|i| (h.terms[*i].canon(), ids[i].clone(), true)).collect();
         if last {
+            // every other handle is rebuilt from the identity invocation of the class id it was returned with (that class may have
+            // been merged away since): `mk_identity_applied_id(id)` with the original arguments plugged in denotes the same term
+            for (k, it) in items.iter_mut().enumerate() {
+                if k % 2 == 1 {
+                    continue;
+                }
+                let hd = it.1.clone();
+                match guard(|| eg.mk_identity_applied_id(hd.id).apply_slotmap_partial(&hd.m)) {
+                    Ok(alt) => {
+                        out.inc("handles_rebuilt_from_identity_invocation");
+                        it.1 = alt;
+                    }
+                    Err(p) => {
+                        out.fail(Fail::panic("panic-in-op", &p, &format!("mk_identity_applied_id({:?}).apply_slotmap", hd.id), cj.clone()));
+                        return out;
+                    }
+                }
+            }
             // plus all proper subterms (bodies open), obtained by non-mutating lookup
             let mut seen: BTreeSet<Tm> = items.iter().map(|x| x.0.clone()).collect();
             for i in &added {
